@@ -111,7 +111,7 @@ def reflect_window():
 class Driver:
     """One real client endpoint with one region circuit.  Must be created inside a running loop."""
 
-    def __init__(self, client, window=None):
+    def __init__(self, client, window=None, start="pending"):
         im = _imports()
         self.im = im
         self.clock = _Clock()
@@ -123,7 +123,14 @@ class Driver:
         if not self.sess.open_circuit(PEER):
             raise MachineryError("open_circuit refused the login region")
         self.region = self.sess.regions[-1]
-        self.region.circuit.is_alive = True
+        # open_circuit() leaves the circuit not-yet-alive (is_alive = False) until the handshake is through: that is how
+        # the client endpoint really starts.  start="alive": a bare Circuit as its constructor makes it (is_alive = True).
+        self.start = start
+        if start == "alive":
+            from hippolyzer.lib.base.message.circuit import Circuit
+            self.region.circuit = Circuit(("127.0.0.1", 0), PEER, self.transport)
+        elif start != "pending":
+            raise MachineryError("start state %r" % (start,))
         if window:
             # a small de-duplication memory for the exhaustive model: the public deque is replaced by a shorter one.
             # (An endpoint that ignores it just has a longer memory, which the specification allows.)
@@ -311,6 +318,21 @@ class Driver:
             ev["raised"] = r
         return await self._observe(ev)
 
+    def start_events(self):
+        return [{"ev": "Alive", "how": "bare", "tx": [], "fut": []}] if self.start == "alive" else []
+
+    async def go_alive(self):
+        """What HippoClientRegion.connect() does once UseCircuitCode is acknowledged."""
+        self.region.circuit.is_alive = True
+        return await self._observe({"ev": "Alive", "how": "handshake"})
+
+    async def disconnect(self):
+        st, r = common.impl_call(self.region.circuit.disconnect)
+        ev = {"ev": "Disconnect"}
+        if st != "ok":
+            ev["raised"] = r
+        return await self._observe(ev)
+
     def close(self):
         # futures that failed were never awaited: retrieve the exception so asyncio stays quiet
         for _, f in self.futs:
@@ -324,6 +346,7 @@ class Driver:
 
 _G: Graph = None
 _B1_WINDOW = None
+_INIT_ALIVE = {}
 _WINDOW_REAL = 1000
 _SAMPLE_EVERY = 0
 
@@ -355,6 +378,10 @@ async def _do(drv: Driver, act, model_ids):
         return await drv.tick(act["d"])
     if n == "Subscribe":
         return await drv.subscribe(act["l"], act["k"])
+    if n == "GoAlive":
+        return await drv.go_alive()
+    if n == "Disconnect":
+        return await drv.disconnect()
     raise MachineryError("unknown action %r" % (act,))
 
 
@@ -403,7 +430,8 @@ def _compare(drv: Driver, act, obs, ev):
         got_tx = sorted((t["id"], t["rel"], t["resent"]) for t in tx)
         if exp_tx != got_tx:
             clause = {"SendRel": "send: one reliable datagram", "SendUnrel": "send: one unreliable datagram",
-                      "Tick": "resend exactly the due pending sends", "Subscribe": "subscribe: nothing emitted"}[n]
+                      "Tick": "resend exactly the due pending sends", "Subscribe": "subscribe: nothing emitted",
+                      "GoAlive": "handshake: nothing emitted", "Disconnect": "disconnect: nothing emitted"}[n]
             bad.append((clause, exp_tx, got_tx))
     # futures of all reliable sends
     exp_state = {}
@@ -414,6 +442,11 @@ def _compare(drv: Driver, act, obs, ev):
     for m in obs["failed"]:
         exp_state[real(m)] = "f"
     got_state = dict((rid, st) for rid, st in ev["fut"])
+    if len(drv.issued) != len(mids):
+        # the endpoint issued another number of packet IDs than the model (reported above): model and real IDs cannot be
+        # matched by position any more, so the futures are not judged on this edge
+        got_state, exp_state = {}, {}
+        ev = dict(ev, fut=[])
     if sorted(got_state) != sorted(exp_state) or len(ev["fut"]) != len(exp_state):
         bad.append(("futures:one per reliable send", sorted(exp_state), [f[0] for f in ev["fut"]]))
     for rid, st in sorted(got_state.items()):
@@ -445,16 +478,16 @@ async def _replay_async(edge_ids):
             # reaches src(e) along one history only; (f, e) is replayed as path_to(src f) + f + e.
             loop, ei = item if isinstance(item, tuple) else (None, item)
             e = g.edges[ei]
-            drv = Driver(client, _B1_WINDOW)
             path = (g.path_to(g.edges[loop]["_s"]) + [g.edges[loop]]) if loop is not None else g.path_to(e["_s"])
+            drv = Driver(client, _B1_WINDOW, _INIT_ALIVE[(path[0] if path else e)["_s"]])
             mids = []
-            evs = []
+            evs = drv.start_events()
             for pe in path:
                 evs.append(await _do(drv, pe["act"], mids))
                 mids = pe["obs"]["ids"]
             ev = await _do(drv, e["act"], mids)
             evs.append(ev)
-            steps += len(evs)
+            steps += len(path) + 1
             bad = _compare(drv, e["act"], e["obs"], ev)
             drv.close()
             if bad:
@@ -475,7 +508,7 @@ def _strip(evs):
     """Trace records: only what ClientCircuit_Trace reads."""
     res = []
     for ev in evs:
-        r = {k: v for k, v in ev.items() if k in ("ev", "p", "rel", "acks", "d", "fut", "match", "level", "kind")}
+        r = {k: v for k, v in ev.items() if k in ("ev", "p", "rel", "acks", "d", "fut", "match", "level", "kind", "how")}
         r["tx"] = [{"id": t["id"], "rel": t["rel"], "resent": t["resent"], "acked": t["acked"], "peer": t["peer"]}
                    for t in ev["tx"]]
         if "dl" in ev:
@@ -491,12 +524,14 @@ def _mc_cfg(consts, spec, check=True, forms=False):
     c.setdefault("MaxSubs", 0)
     c.setdefault("Window", _WINDOW_REAL)
     c.setdefault("SubKinds", "{}")
+    c.setdefault("StartStates", '{"pending"}')     # as HippoClientSession.open_circuit creates it
+    c.setdefault("Lifecycle", "FALSE")
     txt += "CONSTANTS " + " ".join("%s = %s" % kv for kv in c.items()) + "\n"
     if forms:
         txt += 'CONSTANTS Forms = {"app", "pa", "mix"}\n'
     txt += "CONSTRAINT Bound\nVIEW View\n"
     if check:
-        for i in ("TypeOK", "AckEveryReceipt", "DispatchAtMostOnce", "FirstCopyDispatched", "MemoryShape", "UnreliableAlwaysDelivered", "DispatchReachesAll",
+        for i in ("TypeOK", "AckEveryReceipt", "DispatchAtMostOnce", "FirstCopyDispatched", "AckedWhilePending", "MemoryShape", "UnreliableAlwaysDelivered", "DispatchReachesAll",
                   "Partition", "DoneIffAcked", "FailedIffSpent", "IdsIncreasing", "LastIsLast"):
             txt += "INVARIANT %s\n" % i
         txt += "PROPERTY Final\nPROPERTY OneShotOnce\nPROPERTY RememberedNeverAgain\n"
@@ -527,12 +562,13 @@ class _Agg:
 
 
 def _b1(chk: Check, consts, label, sample_every, max_pairs=0):
-    global _G, _SAMPLE_EVERY, _B1_WINDOW
+    global _G, _SAMPLE_EVERY, _B1_WINDOW, _INIT_ALIVE
     _B1_WINDOW = consts.get("Window")
     res = common.model_check(chk, "ClientCircuit_MC", _mc_cfg(consts, "Spec"), "ClientCircuit_MC " + label)
     recs = common.export_records(chk, "ClientCircuit_MBT", _mc_cfg(consts, "MSpec", check=False, forms=True),
                                  "ClientCircuit_MBT " + label)
     g = Graph(recs)
+    _INIT_ALIVE = {common.skey(r["init"]): r["obs"]["alive"] for r in recs if isinstance(r, dict) and "init" in r}
     if res.ok and len(g.states) < res.distinct:
         raise MachineryError("MBT export has %d states, model has %d" % (len(g.states), res.distinct))
     _G, _SAMPLE_EVERY = g, sample_every
@@ -578,8 +614,11 @@ def _b1(chk: Check, consts, label, sample_every, max_pairs=0):
 # ----------------------------------------------------------------------------------------
 
 async def _walk(client, rng, length, every_ms):
-    drv = Driver(client)
-    evs = []
+    drv = Driver(client, None, rng.choice(["pending", "pending", "alive"]))
+    evs = drv.start_events()
+    state = drv.start
+    go_alive_at = rng.choice([0, 3, 10, 40, length + 1]) if state == "pending" else -1
+    disconnect_at = rng.choice([length + 1, length + 1, length - rng.randrange(5, 40)])
     rel_pids, unrel_pids = [], []
     next_pid = rng.randrange(1, 50)
     my_rel = []      # IDs the endpoint used for reliable sends (read off its datagrams)
@@ -601,9 +640,31 @@ async def _walk(client, rng, length, every_ms):
                 pool.append((max(drv.issued) if drv.issued else -1) + rng.randrange(1, 4))   # not issued yet
         return pool
 
-    for _ in range(length):
+    for step in range(length):
         c = rng.random()
-        if c < p_tick:
+        if state == "pending" and step == go_alive_at:
+            ev = await drv.go_alive()
+            state = "alive"
+        elif state != "dead" and step == disconnect_at:
+            ev = await drv.disconnect()
+            state = "dead"
+        elif state == "dead":
+            # nothing is sent, clocked or subscribed on a disconnected circuit; strays and peer packets still arrive
+            if rng.random() < 0.25:
+                ev = await drv.stray(pick_acks())
+            else:
+                rel = rng.random() < 0.7
+                pool = rel_pids if rel else unrel_pids
+                if pool and rng.random() < 0.5:
+                    pid = rng.choice(pool[-5:])
+                else:
+                    next_pid += 1
+                    while next_pid in rel_pids or next_pid in unrel_pids:
+                        next_pid += 1
+                    pid = next_pid
+                    pool.append(pid)
+                ev = await drv.recv(pid, rel, pick_acks(), "app")
+        elif c < p_tick:
             ev = await drv.tick(rng.choice(ticks))
         elif c < p_tick + 0.12:
             ev = await drv.send_rel()
@@ -664,8 +725,8 @@ async def _long_walk_async(args):
     rng = random.Random(seed)
     client = _imports()["HippoClient"]()
     try:
-        drv = Driver(client)
-        evs = []
+        drv = Driver(client, None, rng.choice(["pending", "alive"]))      # the memory does not wait for the handshake
+        evs = drv.start_events()
         pids = []
         nxt = rng.randrange(1, 1000)
 
@@ -751,6 +812,12 @@ def run(chk: Check):
         "exhaustive small-window model is bound by replacing the public deque by a shorter one",
         "peer datagrams are well-formed, UDP-permitted messages (a UDP-banned message is discarded before acking)",
         "the event loop is pumped between datagrams; clock is virtual (module attribute dt of message.circuit)",
+        "every configuration drives the circuit the way HippoClientSession.open_circuit() creates it (is_alive = False, no "
+        "handshake); the lifecycle configuration and the walks also start from a bare Circuit (is_alive = True), complete the "
+        "handshake (is_alive = True as connect() does) and call Circuit.disconnect()",
+        "a disconnected circuit is outside the property; ASSUMED as the unchanged code behaves: pending sends orphaned (futures "
+        "stay pending), packet IDs start over, reception (ack, de-duplication, dispatch) continues; no send / clock step / "
+        "subscription is driven on it",
         "Tick = clock advance followed by Circuit.resend_unacked() (what HippoClient._attempt_resends calls)",
         "retry budget %d and resend period %d ms are read from the code, not fixed by the property" % (budget, every),
         "permanent subscribers are plain callables subscribed by name and by '*' at session and region level; further "
@@ -777,6 +844,10 @@ def run(chk: Check):
     traces += _b1(chk, dict(base, RelPids="{1}", UnrelPids="{2}", MaxRcv=2, MaxSends=0, MaxUnrel=0, MaxAcks=0, Ticks="{}",
                             MaxSubs=2, SubKinds='{"perm", "once", "retTrue", "waitfor"}', Depth=5 if quick else 6),
                   "subscribers", 151 if quick else 211, max_pairs=12000 if quick else 0)
+    # life of the circuit: created-not-yet-alive (as the endpoint makes it) or bare-alive, handshake completes, disconnect
+    traces += _b1(chk, dict(base, RelPids="{1}", UnrelPids="{2}", MaxRcv=2, MaxSends=1 if quick else 2, MaxUnrel=1, MaxAcks=1,
+                            Ticks="{%d}" % every, StartStates='{"pending", "alive"}', Lifecycle="TRUE", Depth=7 if quick else 8),
+                  "lifecycle", 37, max_pairs=6000 if quick else 0)
     # de-duplication memory of 2 (3) IDs: eviction, duplicates of remembered and of forgotten IDs
     b1_traces = traces
     wtraces = _b1(chk, dict(base, Window=2, RelPids="{1,2,3}", UnrelPids="{4}", MaxRcv=3, MaxSends=0, MaxUnrel=0, MaxAcks=0,
